@@ -987,6 +987,12 @@ class Parser:
         return tp
 
     def include(self, other):
+        # anonymous structs are numbered '$1', '$2', ... per parser; continue
+        # after the included parser's numbers so that the names stay unique
+        # in the tables of a module generated for this ffi (they are looked
+        # up by name at runtime)
+        self._anonymous_counter = max(self._anonymous_counter,
+                                      other._anonymous_counter)
         for name, (tp, quals) in other._declarations.items():
             if name.startswith('anonymous $enum_$'):
                 continue   # fix for test_anonymous_enum_include
